@@ -324,9 +324,19 @@ var ranges = []rangeDef{
 	{"two-families", 0, 2*familyMs - 1},                           // both families (diff >= 1h: interval re-calculation)
 	{"partial", (s0-1)*slotMs + 5000, s0*slotMs + 5000},           // unaligned, only slots s0-1 and s0
 	{"family2-partial", familyMs + s0*slotMs, familyMs + 300_000}, // starts inside the second family
+	// only used by the scripted scenario unaligned-families (special.go): aligned to the storage interval, not to the
+	// query interval, over both families up to the end of the second one / into the second one
+	{"unaligned-two-families", 30_000, 2*familyMs - 1},
+	{"unaligned-into-family2", 70_000, familyMs + (s0+1)*slotMs},
 }
 
-var intervals = []int64{0, 20_000, 60_000} // 0 = not given (storage interval)
+// mainRanges / mainIntervals: what the enumerated menus use (the tables' tails belong to scripted scenarios).
+const (
+	mainRanges    = 4
+	mainIntervals = 3
+)
+
+var intervals = []int64{0, 20_000, 60_000, 300_000} // 0 = not given (storage interval); 5m only in scripted scenarios
 
 // plan reproduces what the statement documents as the effective range / interval: start and end are truncated to
 // the storage interval, the query interval is a multiple of it, both ends are inclusive.
